@@ -69,3 +69,40 @@ def check_module_buffers(ctx, rule, module_name, floor=0):
     if n == 0 and n_sites:
         ctx.ok(rule, f"{module_name}:no inherited-dtype allocation", m.relpath, "no result buffer is allocated with np.*_like (explicit shapes default to float64)", nontrivial=False, allocation_sites=n_sites)
     return n
+
+
+def check_vectorize(ctx, rule, module_names):
+    """np.vectorize(f) without `otypes` takes the output dtype from the FIRST element's result: a function that returns
+    an integer literal on one branch and floats on another yields an integer array (every float truncated) whenever
+    the first element takes the integer branch.  Every return of a vectorised function must be float-valued."""
+    import ast
+
+    n = 0
+    for mn in module_names:
+        m = ctx.P.module(mn)
+        defs = {}
+        for node in ast.walk(m.tree):
+            if isinstance(node, (ast.FunctionDef, ast.Lambda)):
+                defs.setdefault(getattr(node, "name", None), []).append(node)
+        for node in ast.walk(m.tree):
+            if not (isinstance(node, ast.Call) and ast.unparse(node.func) in ("np.vectorize", "numpy.vectorize")):
+                continue
+            if any(k.arg == "otypes" for k in node.keywords) or not node.args:
+                continue
+            target = node.args[0]
+            cands = [target] if isinstance(target, ast.Lambda) else defs.get(getattr(target, "id", None), [])
+            n += 1
+            ints = []
+            for fn in cands:
+                rets = [fn.body] if isinstance(fn, ast.Lambda) else [r.value for r in ast.walk(fn) if isinstance(r, ast.Return) and r.value is not None]
+                for r in rets:
+                    for leaf in ([r.body, r.orelse] if isinstance(r, ast.IfExp) else [r]):
+                        v = leaf.operand if isinstance(leaf, ast.UnaryOp) else leaf
+                        if isinstance(v, ast.Constant) and isinstance(v.value, int) and not isinstance(v.value, bool):
+                            ints.append(f"line {leaf.lineno}: return {ast.unparse(leaf)}")
+            ctx.check(
+                not ints, rule, f"{mn}:np.vectorize at line {node.lineno}", f"{m.relpath}:{node.lineno}",
+                "a function wrapped in np.vectorize (no otypes) returns floats on every branch: the output dtype is inferred from the first element only",
+                signature="integer literal returned by a vectorised function", returns=ints,
+            )
+    return n
